@@ -70,7 +70,7 @@ def check(rec, kind, idx, rng, tier):
     invalid_present = (~zr.valid(values, nodata)).any() or znf != 'none'
     if len(uz) >= 2 and invalid_present:
         rec.nontriv(zones.tobytes(), values.tobytes(), repr(nodata), repr(zone_ids), tuple(names))
-    if idx == 0:
+    if len(rec.samples) < 1:
         rec.sample(base)
 
     def classify(default):
